@@ -46,6 +46,16 @@ def variants(prop, case):
         return [{"via": "flat", "via2": "flat"}, {"via": RVIAS[h % len(RVIAS)], "via2": RVIAS[(h // 16) % len(RVIAS)]}]
     if op == "ragged_slice":
         return [{"via": "flat"}, {"via": RVIAS[h % len(RVIAS)], "how": ["fn", "nps"][(h // 16) % 2]}]
+    if op == "rl_roundtrip":
+        return [{"input": ["array", "list"][h % 2], "conv": ["asarray", "array"][(h // 2) % 2]}]
+    if op == "rl_getitem":
+        return [{"npint": bool(h & 1), "listkind": ["list", "array"][(h // 2) % 2]}]
+    if op in ("rl_ufunc", "rl_reduce"):
+        return [{"how": ["ufunc", "operator"][h % 2] if op == "rl_ufunc" else ["np", "method"][h % 2]}]
+    if op == "rl2_getitem":
+        return [{"tuple1": bool(h & 1)}]
+    if op == "rl2_func":
+        return [{"how": ["method", "np"][h % 2]}]
     return [{}]
 
 
